@@ -27,6 +27,7 @@ import (
 	"github.com/kevin-hanselman/dud/src/cache"
 	"github.com/kevin-hanselman/dud/src/checksum"
 	"github.com/kevin-hanselman/dud/src/cmd"
+	"github.com/kevin-hanselman/dud/src/fsutil"
 	"github.com/kevin-hanselman/dud/src/stage"
 	"github.com/kevin-hanselman/dud/src/strategy"
 	"log"
@@ -350,6 +351,46 @@ func modePool(in *bufio.Scanner, w *bufio.Writer) {
 	}
 }
 
+// same line: <lenA> <lenB> <seed> <flipOffset|-1>  -> "1" / "0" / "ERR"
+func modeSame(in *bufio.Scanner, w *bufio.Writer) {
+	tmp, _ := os.MkdirTemp("", "sameh")
+	defer os.RemoveAll(tmp)
+	genb := func(seed, n int) []byte {
+		data := make([]byte, n)
+		for i := range data {
+			j := i % 257
+			data[i] = byte((seed + j*j*7 + j + (i/257)*3) % 256)
+		}
+		return data
+	}
+	for in.Scan() {
+		f := strings.Fields(in.Text())
+		if len(f) < 4 {
+			continue
+		}
+		la, _ := strconv.Atoi(f[0])
+		lb, _ := strconv.Atoi(f[1])
+		seed, _ := strconv.Atoi(f[2])
+		flip, _ := strconv.Atoi(f[3])
+		a := genb(seed, la)
+		b := genb(seed, lb)
+		if flip >= 0 && flip < lb {
+			b[flip] ^= 0xFF
+		}
+		pa, pb := filepath.Join(tmp, "a"), filepath.Join(tmp, "b")
+		os.WriteFile(pa, a, 0o644)
+		os.WriteFile(pb, b, 0o644)
+		same, err := fsutil.SameContents(pa, pb)
+		if err != nil {
+			fmt.Fprintln(w, "ERR")
+		} else if same {
+			fmt.Fprintln(w, "1")
+		} else {
+			fmt.Fprintln(w, "0")
+		}
+	}
+}
+
 func main() {
 	in := bufio.NewScanner(os.Stdin)
 	in.Buffer(make([]byte, 1<<20), 1<<26)
@@ -366,6 +407,8 @@ func main() {
 		modePath(in, w)
 	case "pool":
 		modePool(in, w)
+	case "same":
+		modeSame(in, w)
 	default:
 		fmt.Fprintln(os.Stderr, "unknown mode")
 		os.Exit(2)
